@@ -19,10 +19,14 @@ RULE = ("Vocabulary: 3 owner names x 3 spellings, 8 record kinds + questions, cl
 ASSUMPTIONS = ["identity code has no size-dependent branches, so a bounded vocabulary is representative"]
 EXHAUSTIVE = {"quick": False, "thorough": True}
 
-NAMES = [["a.local.", "A.local.", "a.LOCAL."], ["b.local.", "B.local.", "b.Local."], ["_http._tcp.local.", "_HTTP._tcp.local.", "_http._TCP.LOCAL."]]
+NAMES = [["a.local.", "A.local.", "a.LOCAL."], ["b.local.", "B.local.", "b.Local."], ["_http._tcp.local.", "_HTTP._tcp.local.", "_http._TCP.LOCAL."],
+         # letters outside ASCII fold like any other letter (the library compares str.lower() forms) ...
+         ["éa.local.", "Éa.local.", "ÉA.LOCAL."],
+         # ... but nothing more than lower(): 'ß' is not 'ss' (casefold would say so)
+         ["straße.local.", "Straße.LOCAL.", "strasse.local."]]
 CLASSES = [1, 0x8001, 3]
 TTLC = [(120, 1000.0), (4500, 5000.0), (0, 1000.0)]
-TARGETS = ["t.local.", "T.local.", "t.LOCAL.", "u.local."]
+TARGETS = ["t.local.", "T.local.", "t.LOCAL.", "u.local.", "é.local.", "É.local."]
 
 
 def floors(tier):
